@@ -175,6 +175,88 @@ def generate(rng, tier):
     return {'profile': ID, 'world': world, 'ops': ops, 'plan': [], 'env': env, 'twin_of': twin_of}
 
 
+# ----------------------------------------------------------------------------
+# thorough tier: every history of up to three directive events
+# ----------------------------------------------------------------------------
+EX_EVENTS = [(scope, sign, what) for scope in ('block', 'inline') for sign in '+-'
+             for what in ('SKIP', 'met', 'a', 'b')]
+EX_FORMS = ['emit', 'multiline', 'for', 'decorated', 'emit_want']
+N_SWEEPS_THOROUGH = len(EX_FORMS) * len(EX_EVENTS)
+SWEEP_RULE = ('bounded-exhaustive part of C04\'s quantifier: for each of 5 statement shapes (one-line, multi-line, compound, decorated '
+              'def + call, statement with want) *every* sequence of 1, 2 and 3 directive events over the 16-event alphabet '
+              '{block, inline} x {+,-} x {SKIP, REQUIRES(met), REQUIRES(unmet a), REQUIRES(unmet b)}, each event followed by a '
+              'probe statement and one final probe; one sweep = one shape x one first event (273 doctests)')
+
+
+def _ex_dirs(ev, args):
+    scope, sign, what = ev
+    if what == 'SKIP':
+        return [[sign, 'SKIP', None]]
+    return [[sign, 'REQUIRES', args[what]]]
+
+
+def _ex_steps(pfx, form, events, args):
+    steps = []
+    n = [0]
+
+    def stmt(inline=None, parity=0):
+        i = n[0]
+        if form == 'decorated':
+            d = {'i': i, 'form': 'defhelper', 'pts': [], 'ps2': False, 'sep': 'none', 'deco': True, 'pad': 1}
+            c = {'i': i + 1, 'form': 'callhelper', 'pts': ['%ss%da' % (pfx, i + 1)], 'ps2': False, 'sep': 'none', 'ref': i}
+            if inline:
+                tgt = d if parity else c
+                tgt['inline'] = inline
+                tgt['inline_at'] = 'first' if parity else 'last'
+            n[0] += 2
+            return [d, c]
+        f = 'emit' if form == 'emit_want' else form
+        st = {'i': i, 'form': f, 'pts': ['%ss%d%s' % (pfx, i, 'ab'[j]) for j in range(gen.NPTS.get(f, 1))],
+              'ps2': bool(parity), 'sep': 'none'}
+        if form == 'emit_want':
+            st['want'] = 'acc'
+            if parity:
+                st['want_corrupt'] = 'replace'      # a wrong want: must not matter when the statement is skipped
+        if inline:
+            st['inline'] = inline
+            st['inline_at'] = 'first' if parity else 'last'
+        n[0] += 1
+        return [st]
+    for j, ev in enumerate(events):
+        dirs = _ex_dirs(ev, args)
+        if ev[0] == 'block':
+            steps.append({'i': n[0], 'form': 'directive', 'pts': [], 'ps2': False, 'sep': 'none', 'dirs': dirs})
+            n[0] += 1
+            steps += stmt(None, j % 2)
+        else:
+            steps += stmt(dirs, j % 2)
+    steps += stmt(None, 0)
+    return steps
+
+
+def sweep(rng, h):
+    idx = h['index']
+    form = EX_FORMS[idx % len(EX_FORMS)]
+    e1 = EX_EVENTS[(idx // len(EX_FORMS)) % len(EX_EVENTS)]
+    args = {'met': MET[idx % len(MET)], 'a': UNMET_A[idx % len(UNMET_A)], 'b': UNMET_B[idx % len(UNMET_B)]}
+    env = copy.deepcopy(ENV)
+    env['listing_seed'] = idx
+    out = []
+    for e2 in [None] + EX_EVENTS:
+        items = []
+        thirds = [None] if e2 is None else [None] + EX_EVENTS
+        for fi, e3 in enumerate(thirds):
+            events = [e for e in (e1, e2, e3) if e is not None]
+            steps = _ex_steps('q0f%dd0' % fi, form, events, args)
+            items.append({'kind': 'func', 'name': 'f%d' % fi,
+                          'doc': {'layout': 'google' if fi % 2 else 'freeform', 'tabs': False,
+                                  'doctests': [{'steps': steps, 'tag': 'Example'}]}})
+        world = {'modules': [{'name': 'simpkg.m0', 'relpath': 'simpkg/m0.py', 'items': items}], 'init_files': ['simpkg/__init__.py']}
+        ops = [{'op': 'run_obj', 'dt': d, 'verbose': 0, 'on_error': 'return'} for d in gen.doctest_ids(world)]
+        out.append({'profile': ID, 'world': world, 'ops': ops, 'plan': [], 'env': env, 'twin_of': {}})
+    return out
+
+
 def check(rec):
     meta = expect.build(rec)
     scn = rec['scn']
